@@ -184,6 +184,7 @@ class Explorer:
         self.opaque = set(opaque)       # callee names never inlined
         self.expand = set(expand)       # anchor functions a rule asks to see through (expanded path by path although they are named)
         self.atomic = set(atomic)       # field names whose loads through a pointer are atoms (stores on the path are not forwarded to them)
+        self.seen_bodies = set()        # bodies whose code was evaluated as part of this one (inlined, expanded, applied)
         self.paths = []
         self.loops = body.loops()
         self.loop_havoc = {h: self._loop_writes(blocks) for h, blocks in self.loops.items()}
@@ -721,6 +722,7 @@ class Explorer:
     def inline_call(self, st, fr, cb, args):
         """evaluate a straight-line callee in place; returns (ret, pure) or None"""
         args = untuple_closure_args(cb, args)
+        self.seen_bodies.add(cb.id)
         f2 = Frame(cb, args, fr.depth + 1)
         f2.evdepth = fr.evdepth + 1
         self._frames[f2.id] = f2
@@ -921,6 +923,7 @@ class Explorer:
             fargs = tuple(args)
         if cb.arg_count != len(fargs):
             raise CannotAnalyse('arity of callable %s' % cb.id)
+        self.seen_bodies.add(cb.id)
         st.path.events.append({'k': 'call', 'callee': cb.id, 'decl': cb.id, 'args': fargs, 'bb': b, 'line': t['line'], 'epoch': st.epoch,
                                'term': t, 'exp': t.get('exp', False), 'depth': fr.evdepth + 1, 'in': fr.body.id, 'inlined': True,
                                'expanded': True, 'pure': True, 'ret': ('c', ('zst', 'expanded')), 'applied': True})
@@ -1352,6 +1355,7 @@ class Explorer:
                           'epoch': st.epoch, 'term': t, 'exp': t.get('exp', False), 'depth': fr.evdepth, 'in': body.id,
                           'inlined': True, 'expanded': True, 'pure': False, 'ret': ('c', ('zst', 'expanded'))}
                     st.path.events.append(ev)
+                    self.seen_bodies.add(cb.id)
                     f2 = Frame(cb, args, fr.depth + 1)
                     f2.evdepth = fr.evdepth
                     f2.parent = fr
